@@ -396,6 +396,8 @@ def _iteration_rules(res, drv, fsolve, f, ends):
             if ev[6] != 0 or ev[7] != (qn0, 0):
                 bad("TS-FRESH-MAIN", "the main step is applied to an object that is not a fresh copy of self.Qn (copy_of=%s, %d earlier steps): the snapshot side step leaks into the trajectory" % (ev[7], ev[6]), ev[4], "main-notfresh")
             dtv = ev[2]
+            # the directive is ON when its key is present in the caller's dictionary (the documented switch: `'dtlocal' in
+            # directives`); a value test on top of it is a second, independent fact
             dtlocal = None
             for k, v in e.bools.items():
                 if "dtlocal" in k:
